@@ -561,10 +561,21 @@ Proof.
   - intros k _. unfold upd. destruct (Nat.eqb k i); reflexivity.
 Qed.
 
+Lemma done_counter_pos s i : Inv s -> wpc s i = WDone -> counter s <> 0.
+Proof.
+  intros [_ _ _ _ _ _ Hsp _ Hc _ _ _ _] Ep E0.
+  assert (Hi : i < added (mpc s)).
+  { assert (i < spawned (mpc s)) by (apply Hsp; congruence).
+    destruct (mpc s); cbn in *; lia. }
+  rewrite E0 in Hc. pose proof (cnt_zero _ _ (eq_sym Hc) i Hi) as Hz. cbn in Hz.
+  now rewrite Ep in Hz.
+Qed.
+
 (* every effective step makes progress towards termination *)
 Lemma enabled_decreases s t : Inv s -> enabled s t = true -> measure (step s t) < measure s.
 Proof.
-  intros HI He. destruct HI as [Hl _ _ _ _ _ Hsp Hm _ _ _ _ _].
+  intros HI He. pose proof (done_counter_pos s) as Hdone. specialize (fun i => Hdone i HI).
+  destruct HI as [Hl _ _ _ _ _ Hsp Hm _ _ _ _ _].
   destruct t as [|i]; cbn in He; unfold step, measure.
   - destruct (mpc s) as [j|j| |r] eqn:Em; try discriminate.
     + destruct (j <? n) eqn:Ej; cbn; [apply Nat.ltb_lt in Ej; lia|lia].
@@ -592,7 +603,69 @@ Proof.
     + cbn. apply Nat.add_lt_mono_l. apply sumf_wpc_lt; auto. rewrite Ep. cbn; lia.
     + assert (Hcs : lock s = Some i) by (apply Hl; unfold in_cs; auto). rewrite Hcs.
       cbn. apply Nat.add_lt_mono_l. apply sumf_wpc_lt; auto. rewrite Ep. cbn; lia.
-    + admit.
-Abort.
+    + destruct (counter s) eqn:Ec; [exfalso; now apply (Hdone i)|].
+      cbn. apply Nat.add_lt_mono_l. apply sumf_wpc_lt; auto. rewrite Ep. cbn; lia.
+Qed.
+
+(* no deadlock: as long as main has not returned, some thread can move *)
+Lemma progress s : Inv s -> (forall r, mpc s <> MRet r) -> exists t, enabled s t = true.
+Proof.
+  intros [Hl _ _ _ _ _ Hsp _ Hc _ _ _ _] Hnr.
+  destruct (mpc s) as [j|j| |r] eqn:Em.
+  - exists TMain. cbn. now rewrite Em.
+  - exists TMain. cbn. now rewrite Em.
+  - destruct (counter s =? 0) eqn:Ec; [exists TMain; cbn; now rewrite Em|].
+    apply Nat.eqb_neq in Ec. rewrite Hc in Ec. cbn in Ec, Hsp.
+    destruct (cnt_pos _ _ Ec) as (i & Hi & Hlive). cbn in Hlive.
+    assert (Hni : wpc s i <> WIdle) by (apply Hsp; exact Hi).
+    assert (Hholder : forall h, lock s = Some h -> enabled s (TW h) = true).
+    { intros h Hh. apply Hl in Hh. cbn. destruct Hh as [E|[E|[E|E]]]; now rewrite E. }
+    destruct (wpc s i) eqn:Ep; try discriminate; try congruence;
+      try (exists (TW i); cbn; rewrite Ep; reflexivity).
+    + destruct (lock s) as [h|] eqn:El; [exists (TW h); auto|].
+      exists (TW i). cbn. now rewrite Ep, El.
+    + destruct (lock s) as [h|] eqn:El; [exists (TW h); auto|].
+      exists (TW i). cbn. now rewrite Ep, El.
+  - exfalso. now apply (Hnr r).
+Qed.
+
+Theorem no_deadlock sched :
+  (forall r, mpc (run sched) <> MRet r) -> exists t, enabled (run sched) t = true.
+Proof. apply progress, every_schedule. Qed.
+
+Lemma Inv_fold sched s : Inv s -> Inv (fold_left step sched s).
+Proof. revert s. induction sched as [|t sched IH]; cbn; intros s H; [exact H|apply IH, Inv_step, H]. Qed.
+
+(* from every reachable state the run can be completed, and no run can go on for ever: the
+   number of effective (non-stuttering) steps of ANY schedule is bounded by the initial measure *)
+Theorem can_finish s : Inv s -> exists sched r, mpc (fold_left step sched s) = MRet r.
+Proof.
+  remember (measure s) as m eqn:Em. revert s Em.
+  induction m as [m IH] using lt_wf_ind. intros s Em HI.
+  destruct (mpc s) as [j|j| |r] eqn:Ep.
+  4: { exists [], r. exact Ep. }
+  all: destruct (progress s HI) as (t & Ht); [intros r; congruence|];
+       pose proof (enabled_decreases s t HI Ht) as Hlt;
+       destruct (IH (measure (step s t)) ltac:(lia) (step s t) eq_refl (Inv_step s t HI))
+         as (sched & r & Hr);
+       exists (t :: sched), r; exact Hr.
+Qed.
+
+Fixpoint eff_steps (s : st) (sched : list tid) : nat :=
+  match sched with
+  | [] => 0
+  | t :: r => (if enabled s t then 1 else 0) + eff_steps (step s t) r
+  end.
+
+Theorem effective_steps_bounded sched s :
+  Inv s -> eff_steps s sched + measure (fold_left step sched s) <= measure s.
+Proof.
+  revert s. induction sched as [|t sched IH]; cbn; intros s HI; [lia|].
+  specialize (IH (step s t) (Inv_step s t HI)).
+  destruct (enabled s t) eqn:Et.
+  - pose proof (enabled_decreases s t HI Et). lia.
+  - rewrite (not_enabled_noop s t Et) in *. lia.
+Qed.
 
 End Par.
+
